@@ -242,8 +242,8 @@ PROPS["C10"] = dict(
                  313: "auxiliary data hash = digest of the auxiliary data", 314: "compiling twice gives identical bytes", 316: "script data hash = digest of redeemers + language view"},
 )
 PROPS["C14"] = dict(
-    level="proof", runner="C14", model_files=COMPILE_MODEL, proof_files=["Compile_proofs.v", "Compile_sorted.v", "NoPanic.v"], check_files=["Compile_check.v"],
-    theorems=["C14_hash_construction_total", "C14_number_conversions_total", "C14_int_arithmetic_total", "C14_utxo_refs_total",
+    level="proof", runner="C14", model_files=COMPILE_MODEL, proof_files=["Compile_proofs.v", "Compile_sorted.v", "NoPanic.v", "Compile_accounts.v"], check_files=["Compile_check.v"],
+    theorems=["C14_reward_sort_total_on_any_account", "C14_hash_construction_total", "C14_number_conversions_total", "C14_int_arithmetic_total", "C14_utxo_refs_total",
               "C14_compile_never_panics", "C14_reduce_never_panics", "C14_tx_reduce_never_panics", "C14_compiler_ops_never_panic", "C14_np_is_no_panic"],
     partial=["the modelled back end (reduce, compiler ops, compile) is proved to have no reachable panic; that the code is the model is the per-case tie, so that every panic of the implementation on a generated case is a disagreement (clause 1 / id 140), and panics in the stages before compile and in resolve_tx are reported directly (id 147); stack exhaustion and panics inside dependencies can only be observed"],
     trusted_base=COMPILE_TB, assumptions=[],
